@@ -545,6 +545,7 @@ def r6_acknowledgement(chk, fx):
         if name not in fx.mir:
             raise F.AnchorLost("reader not found: %s" % name)
         n += 1
+        bodies = bodies + c08.reader_helpers(fx, fx.mir[name])
         c08.r1_reader(sub, fx, fx.mir[name], bodies, adt, succ)
         c08.r4_strict_reader(sub, fx, name)
     chk.floor("C04/R6 reply readers of the run's steps", n, 4)
